@@ -52,6 +52,8 @@ type plan struct {
 	Cfg     wl.Cfg
 	Code    codes.Code
 	IDQ     bool // kind / aggregated watch restricted by an ID query (no bootstrap contents)
+	Tail    int  // > 0: the watch starts with a tail request (replays old events first)
+	From    bool // the watch starts from the bookmark of an earlier log entry (replays what followed it first)
 }
 
 func TestC13(t *testing.T) {
@@ -61,7 +63,7 @@ func TestC13(t *testing.T) {
 			"+-bootstrap bookmark} x {retry enabled, disabled} x status code {Unavailable, Internal, Canceled, ResourceExhausted}; the client-side stream is compared with the server-side commit log. " +
 			"distinct = plan; non-trivial = the injected failure was actually hit")
 		c.Assume("the loopback transport delivers messages in order and surfaces a broken stream as an error from Recv; outage writes are all committed before the client's first retry (virtual time)")
-		c.Require("failures_hit", "resumed_transparently", "terminal_errored_mandatory", "outage_beyond_history", "retry_disabled_cases", "no_bookmark_cases", "establishment_failures", "repeated_failures")
+		c.Require("replaying_watches", "failures_hit", "resumed_transparently", "terminal_errored_mandatory", "outage_beyond_history", "retry_disabled_cases", "no_bookmark_cases", "establishment_failures", "repeated_failures")
 
 		var plans []plan
 
@@ -93,6 +95,30 @@ func TestC13(t *testing.T) {
 
 						plans = append(plans, p)
 					}
+				}
+			}
+		}
+
+		// watches that start in the past (tail / from a bookmark, with or without an opening bookmark): the failure index is enumerated
+		// over the opening messages and the replayed events
+		for _, kind := range []string{"single", "kind", "agg"} {
+			for k := 1; k <= 9; k++ {
+				for m := 0; m < 4; m++ {
+					p := plan{Kind: kind, K: []int{k}, E: []int{0, 0, 1}[rng.IntN(3)], W: []int{0, 2}[rng.IntN(2)], Pre: 4 + rng.IntN(5), Cfg: wl.Cfg{16, 64, 2}, Code: codesList[rng.IntN(len(codesList))]}
+
+					if m%2 == 0 {
+						p.Tail = 1 + rng.IntN(5)
+					} else {
+						p.From = true
+					}
+
+					p.BootBM = kind != "single" && m < 2
+
+					if rng.IntN(4) == 0 {
+						p.K = append(p.K, 1+rng.IntN(3))
+					}
+
+					plans = append(plans, p)
 				}
 			}
 		}
@@ -206,6 +232,52 @@ func run(c *vk.C, rng *rand.Rand, p plan, idx int) {
 	rec := &wl.Rec{Kind: p.Kind, Boot: p.Boot, BootBM: p.BootBM, FromIdx: -2, Name: "remote"}
 	kindMd := resource.NewMetadata("ns", res.TypeA, "", resource.VersionUndefined)
 
+	// bookmark of every log entry so far (reference watcher)
+	bmIdx := map[string]int{}
+	bmOf := map[int]state.Bookmark{}
+
+	drainRef := func() {
+		synctest.Wait()
+
+		for {
+			select {
+			case ev := <-refCh:
+				if i, ok := w.Locate(ev.Type, ev.Resource); ok {
+					bmIdx[string(ev.Bookmark)] = i
+					bmOf[i] = ev.Bookmark
+				}
+			default:
+				return
+			}
+		}
+	}
+
+	var (
+		wopts []state.WatchOption
+		past  []state.WatchKindOption
+	)
+
+	switch {
+	case p.Tail > 0 && w.Len() > 0:
+		rec.Tail = p.Tail
+		at := w.Len()
+		match := func(e wl.Entry) bool { return p.Kind != "single" || e.ID == "x" }
+		rec.SetTailCandidates(wl.TailCandidates(w.Log(), at, p.Tail, p.Cfg.Initial, p.Cfg.Max, p.Cfg.Gap, match))
+		wopts, past = []state.WatchOption{state.WithTailEvents(p.Tail)}, []state.WatchKindOption{state.WithKindTailEvents(p.Tail)}
+
+		c.Count("replaying_watches", 1)
+	case p.From && w.Len() > 1:
+		drainRef()
+
+		i := w.Len() - 1 - rng.IntN(min(w.Len(), p.Cfg.Initial-p.Cfg.Gap-1))
+		if bm, ok := bmOf[i]; ok {
+			rec.FromIdx = i
+			wopts, past = []state.WatchOption{state.WithStartFromBookmark(bm)}, []state.WatchKindOption{state.WithKindStartFromBookmark(bm)}
+
+			c.Count("replaying_watches", 1)
+		}
+	}
+
 	var (
 		ch  = make(chan state.Event, 4096)
 		agg = make(chan []state.Event, 4096)
@@ -217,9 +289,9 @@ func run(c *vk.C, rng *rand.Rand, p plan, idx int) {
 	switch p.Kind {
 	case "single":
 		rec.ID = "x"
-		err = remote.Watch(ctx, resource.NewMetadata("ns", res.TypeA, "x", resource.VersionUndefined), ch)
+		err = remote.Watch(ctx, resource.NewMetadata("ns", res.TypeA, "x", resource.VersionUndefined), ch, wopts...)
 	case "kind", "agg":
-		kopts := []state.WatchKindOption{state.WithBootstrapContents(p.Boot), state.WithBootstrapBookmark(p.BootBM)}
+		kopts := append([]state.WatchKindOption{state.WithBootstrapContents(p.Boot), state.WithBootstrapBookmark(p.BootBM)}, past...)
 
 		if p.IDQ {
 			rec.OnlyID = "x"
@@ -295,18 +367,7 @@ func run(c *vk.C, rng *rand.Rand, p plan, idx int) {
 	hits := cli.FailHits()
 
 	// bookmark -> log index, from the reference watcher
-	bmIdx := map[string]int{}
-
-	for more := true; more; {
-		select {
-		case ev := <-refCh:
-			if i, ok := w.Locate(ev.Type, ev.Resource); ok {
-				bmIdx[string(ev.Bookmark)] = i
-			}
-		default:
-			more = false
-		}
-	}
+	drainRef()
 
 	erroredAt := -1
 
